@@ -63,10 +63,13 @@ def program_source(nodes: List[Dict[str, Any]], task_deps: List[Any], task: Dict
     tid = "ctx.message.task_id, ctx.message.args[0] if ctx.message.args else None, ctx.message.labels.get('who')" if own_ctx else "None, me, None"
     body = (f"    LOG('enter', 'task', {tid})\n"
             "    try:\n"
+            + ("        if me == 0 and 'X-Taskiq-requeue' not in ctx.message.labels:\n            LOG('requeue', 'task')\n            await ctx.requeue()\n"
+               if task.get("requeue_first") and own_ctx else "")
             + ("        if box is not None:\n            box.items.append(me)\n" if task.get("box") else "")
             + "        if slp:\n            await asyncio.sleep(slp)\n"
             + ("        if box is not None:\n            LOG('box', 'task', list(box.items))\n" if task.get("box") else "")
-            + ("        LOG('echo', 'task', ctx.message.task_id, ctx.message.args[0] if ctx.message.args else None, ctx.message.labels.get('who'))\n" if own_ctx else ""))
+            + ("        LOG('echo', 'task', ctx.message.task_id, ctx.message.args[0] if ctx.message.args else None, ctx.message.labels.get('who'))\n"
+               "        LOG('labels', 'task', dict(ctx.message.labels))\n" if own_ctx else ""))
     kind = task.get("kind", "ret")
     if kind == "raise":
         body += "        raise ValueError('boom')\n"
